@@ -26,6 +26,7 @@ def main():
             return 1
         return 0 if rep is False else 3
     os.environ["NUMBA_DISABLE_JIT"] = "1"
+    os.environ["VERIF_TIER_ACTIVE"] = a.tier
     mod = importlib.import_module("checks." + prop.lower())
     t0 = time.time()
     return mod.run(a.tier, seed, t0)
